@@ -320,13 +320,18 @@ func roundJSON(v interface{}) interface{} {
 	return out
 }
 
-// complete makes a value explicit about every non-optional field, the way the
-// driver builds the object (constructor first, then the named fields): an
-// absent non-optional field holds its declared default, else the zero value.
-// Values drawn by ref.GenStruct set these fields, but the evaluated default of
-// a struct-typed field names only the fields its literal mentions.  ok is
-// false when a non-optional union-typed field is absent.
-func complete(t *ref.Type, v ref.V, fuel int) (ref.V, bool) {
+// complete makes a value explicit the way the driver builds the Go object
+// (constructor first, then the named fields): an absent non-optional field
+// holds its declared default, else the zero value.  Values drawn by
+// ref.GenStruct set these fields, but the evaluated default of a struct-typed
+// field names only the fields its literal mentions.  An absent optional binary
+// field with a default is made explicit too (it holds the default): the
+// generated IsSet of such a field is "differs from the default", so a nil
+// slice there is the empty value, not the absent one.  ok is false when a
+// non-optional union-typed field is absent (no such object can be written);
+// in lenient mode (declared defaults, which only the constructor ever builds)
+// such a field is left absent, as the constructor leaves it nil.
+func complete(t *ref.Type, v ref.V, fuel int, lenient bool) (ref.V, bool) {
 	if v == nil {
 		return nil, true
 	}
@@ -334,7 +339,7 @@ func complete(t *ref.Type, v ref.V, fuel int) (ref.V, bool) {
 	case ref.List, ref.Set:
 		o := &ref.ListV{E: []ref.V{}}
 		for _, x := range v.(*ref.ListV).E {
-			y, ok := complete(t.Elem, x, fuel)
+			y, ok := complete(t.Elem, x, fuel, lenient)
 			if !ok {
 				return nil, false
 			}
@@ -345,11 +350,11 @@ func complete(t *ref.Type, v ref.V, fuel int) (ref.V, bool) {
 		m := v.(*ref.MapV)
 		o := &ref.MapV{K: []ref.V{}, E: []ref.V{}}
 		for i := range m.K {
-			k, ok := complete(t.Key, m.K[i], fuel)
+			k, ok := complete(t.Key, m.K[i], fuel, lenient)
 			if !ok {
 				return nil, false
 			}
-			x, ok := complete(t.Elem, m.E[i], fuel)
+			x, ok := complete(t.Elem, m.E[i], fuel, lenient)
 			if !ok {
 				return nil, false
 			}
@@ -365,7 +370,13 @@ func complete(t *ref.Type, v ref.V, fuel int) (ref.V, bool) {
 		for _, f := range t.Struct.Fields {
 			fv, has := sv.F[f.ID]
 			if !has || fv == nil {
-				if f.Req == idl.ReqOptional || t.Struct.Kind == "union" || t.Struct.Kind == "result" {
+				if t.Struct.Kind == "union" || t.Struct.Kind == "result" {
+					continue
+				}
+				if f.Req == idl.ReqOptional {
+					if f.HasDef && f.Type.Kind == ref.Binary && f.Default != nil {
+						o.F[f.ID] = f.Default
+					}
 					continue
 				}
 				switch {
@@ -373,6 +384,9 @@ func complete(t *ref.Type, v ref.V, fuel int) (ref.V, bool) {
 					fv = f.Default
 				case f.Type.Kind == ref.Struct:
 					if f.Type.Struct.Kind == "union" {
+						if lenient {
+							continue
+						}
 						return nil, false
 					}
 					fv = ref.NewStruct()
@@ -380,7 +394,7 @@ func complete(t *ref.Type, v ref.V, fuel int) (ref.V, bool) {
 					fv = ref.Zero(f.Type)
 				}
 			}
-			y, ok := complete(f.Type, fv, fuel-1)
+			y, ok := complete(f.Type, fv, fuel-1, lenient)
 			if !ok {
 				return nil, false
 			}
@@ -395,7 +409,7 @@ func completeSchema(sch *ref.Schema) {
 	for _, st := range sch.Structs {
 		for _, f := range st.Fields {
 			if f.HasDef && f.Default != nil {
-				if d, ok := complete(f.Type, f.Default, 32); ok {
+				if d, ok := complete(f.Type, f.Default, 32, true); ok {
 					f.Default = d
 				}
 			}
@@ -499,6 +513,10 @@ func judge(c callCase) outcome {
 		if err != nil || av == nil {
 			return harnessf("call %d args: %v", i, err)
 		}
+		// idempotent on what the generator drew; keeps a hand-written case honest too
+		if av, ok = complete(structType(p.as), av, 32, false); !ok {
+			return harnessf("call %d args: no such object", i)
+		}
 		p.args = av.(*ref.StructV)
 		p.wantArgs = ref.Normalise(structType(p.as), p.args)
 		if p.gm.NIn != len(m.ArgIDs) {
@@ -520,6 +538,9 @@ func judge(c callCase) outcome {
 				if err != nil || v == nil {
 					return harnessf("call %d scripted value: %v", i, err)
 				}
+				if v, ok = complete(p.retT, v, 32, false); !ok {
+					return harnessf("call %d scripted value: no such object", i)
+				}
 				p.val = v
 				script["value"] = ref.ToJSON(p.retT, v)
 			}
@@ -536,6 +557,9 @@ func judge(c callCase) outcome {
 			v, err := ref.StructFromJSON(p.excT, roundJSON(cl.Script.Value))
 			if err != nil || v == nil {
 				return harnessf("call %d scripted exception: %v", i, err)
+			}
+			if v, ok = complete(structType(p.excT), v, 32, false); !ok {
+				return harnessf("call %d scripted exception: no such object", i)
 			}
 			p.val = v
 			script["kind"] = "exception"
@@ -829,34 +853,99 @@ var stressArgs = []string{"ctx", "err", "p", "r", "_args", "_result", "args", "r
 // stress renames some functions, arguments and throws entries of the model's
 // services (nothing refers to these names, so the model stays consistent).
 func stress(rt *rapid.T, p *idl.Program) bool {
-	usedFn := map[string]bool{}
+	fnNames := map[string]bool{} // exact function names of the program (the schema names <fn>_args by them)
+	defNames := map[string]bool{}
+	for _, f := range p.Files {
+		for _, d := range f.Defs {
+			defNames[d.Name] = true
+			for _, fn := range d.Funcs {
+				fnNames[fn.Name] = true
+			}
+		}
+	}
+	variant := func(name, label string) string {
+		switch rapid.IntRange(0, 3).Draw(rt, label) {
+		case 0:
+			return strings.ToUpper(name[:1]) + name[1:]
+		case 1:
+			return strings.ToLower(name[:1]) + name[1:]
+		case 2:
+			return name[:1] + "_" + name[1:]
+		}
+		return name + "_"
+	}
 	changed := false
 	for _, f := range p.Files {
 		for _, d := range f.Defs {
 			if d.Kind != idl.KService {
 				continue
 			}
-			for _, fn := range d.Funcs {
-				if rapid.IntRange(0, 3).Draw(rt, "stressfn") == 0 {
-					n := rapid.SampledFrom(stressFuncs).Draw(rt, "fnname")
-					// function names stay unique over the program (the schema names <fn>_args by them), also up to case and underscores
-					if !usedFn[normName(n)] {
-						usedFn[normName(n)] = true
-						fn.Name = n
-						changed = true
-					}
+			// functions the Go method set of this service also holds: its own earlier ones and the inherited ones
+			var siblings []string
+			for b := d.Extends; b != nil; b = b.Extends {
+				for _, fn := range b.Funcs {
+					siblings = append(siblings, fn.Name)
 				}
+			}
+			for _, fn := range d.Funcs {
+				n := ""
+				switch k := rapid.IntRange(0, 9).Draw(rt, "stressfn"); {
+				case k <= 1:
+					n = rapid.SampledFrom(stressFuncs).Draw(rt, "fnname")
+				case k == 2 && len(siblings) > 0:
+					// differs from a sibling only by case / underscores: one Go method name for two IDL functions
+					n = variant(rapid.SampledFrom(siblings).Draw(rt, "sibling"), "fnvariant")
+				}
+				if n != "" && !fnNames[n] && !reservedIDL[n] {
+					fnNames[n] = true
+					fn.Name = n
+					changed = true
+				}
+				siblings = append(siblings, fn.Name)
 				used := map[string]bool{}
+				var prev []string
 				for _, list := range [][]*idl.Field{fn.Args, fn.Throws} {
 					for _, a := range list {
-						if rapid.IntRange(0, 3).Draw(rt, "stressarg") == 0 {
-							n := rapid.SampledFrom(stressArgs).Draw(rt, "argname")
-							if !used[normName(n)] {
-								used[normName(n)] = true
-								a.Name = n
-								changed = true
-							}
+						used[a.Name] = true
+					}
+				}
+				for _, list := range [][]*idl.Field{fn.Args, fn.Throws} {
+					for _, a := range list {
+						n := ""
+						switch k := rapid.IntRange(0, 9).Draw(rt, "stressarg"); {
+						case k <= 1:
+							n = rapid.SampledFrom(stressArgs).Draw(rt, "argname")
+						case k == 2 && len(prev) > 0:
+							n = variant(rapid.SampledFrom(prev).Draw(rt, "prevarg"), "argvariant")
 						}
+						if n != "" && !used[n] && !reservedIDL[n] {
+							used[n] = true
+							a.Name = n
+							changed = true
+						}
+						prev = append(prev, a.Name)
+					}
+				}
+			}
+			// a struct-like of the same file named like an identifier the service code declares itself
+			if rapid.IntRange(0, 3).Draw(rt, "collide") == 0 {
+				var sl []*idl.Def
+				for _, x := range f.Defs {
+					if x.Kind.IsStructLike() {
+						sl = append(sl, x)
+					}
+				}
+				if len(sl) > 0 {
+					x := rapid.SampledFrom(sl).Draw(rt, "collider")
+					cands := []string{d.Name + "Client", d.Name + "Processor", "New" + d.Name + "Client", "New" + d.Name + "Processor", d.Name + "ClientFactory"}
+					for _, fn := range d.Funcs {
+						up := strings.ToUpper(fn.Name[:1]) + fn.Name[1:]
+						cands = append(cands, d.Name+up+"Args", d.Name+up+"Result", d.Name+"Processor"+up)
+					}
+					if n := rapid.SampledFrom(cands).Draw(rt, "collidename"); !defNames[n] {
+						defNames[n] = true
+						x.Name = n
+						changed = true
 					}
 				}
 			}
@@ -864,6 +953,11 @@ func stress(rt *rapid.T, p *idl.Program) bool {
 	}
 	return changed
 }
+
+var reservedIDL = map[string]bool{"bool": true, "byte": true, "i8": true, "i16": true, "i32": true, "i64": true, "double": true, "string": true, "binary": true,
+	"map": true, "set": true, "list": true, "void": true, "const": true, "typedef": true, "enum": true, "struct": true, "union": true, "exception": true,
+	"service": true, "extends": true, "throws": true, "oneway": true, "include": true, "cpp_include": true, "namespace": true, "cpp_type": true,
+	"required": true, "optional": true, "true": true, "false": true}
 
 // enrich adds throws entries to functions that have none: the model's own
 // generator declares exceptions rarely (one struct-like in five is an
@@ -982,7 +1076,7 @@ func genStructValue(rt *rapid.T, st *ref.StructT) *ref.StructV {
 	if v == nil {
 		return nil
 	}
-	cv, ok := complete(structType(st), v, 32)
+	cv, ok := complete(structType(st), v, 32, false)
 	if !ok {
 		return nil
 	}
@@ -1027,7 +1121,7 @@ func genCall(rt *rapid.T, sch *ref.Schema, sm *svcModel, excs []*ref.StructT) (c
 			if v == nil {
 				return callJ{}, false
 			}
-			v, ok := complete(retT, v, 32)
+			v, ok := complete(retT, v, 32, false)
 			if !ok {
 				return callJ{}, false
 			}
